@@ -2060,7 +2060,8 @@ impl<'a> Evaluator<'a> {
                 }
                 if let (Some(tbl), Val::Ctor(cn, _, _)) = (self.inline, &recv) {
                     if cn != "Some" && cn != "None" && cn != "Ok" && cn != "Err" {
-                        if let Some((params, body)) = tbl.get(&format!(".{}", name)) {
+                        // a method name shared by several types is registered per receiver constructor (`.name@Variant`)
+                        if let Some((params, body)) = tbl.get(&format!(".{}@{}", name, cn)).or_else(|| tbl.get(&format!(".{}", name))) {
                             let mut e2 = Env::new();
                             e2.insert("self".into(), recv.clone());
                             for (pn, a) in params.iter().zip(mc.args.iter()) {
